@@ -8,7 +8,7 @@
 import re
 
 from sqlparse import sql, tokens as T
-from sqlparse.utils import split_unquoted_newlines
+from sqlparse.utils import LINE_MATCH
 
 
 class StripCommentsFilter:
@@ -170,5 +170,19 @@ class StripTrailingSemicolonFilter:
 class SerializerUnicode:
     @staticmethod
     def process(stmt):
-        lines = split_unquoted_newlines(stmt)
-        return '\n'.join(line.rstrip() for line in lines)
+        # Line ends are normalized and trailing blanks are removed between
+        # tokens only. Going by tokens (not by quote characters in the text)
+        # keeps literals, quoted names and block comments that span lines
+        # as they are, whatever other quote characters the statement has.
+        lines = ['']
+        for token in stmt.flatten():
+            if token.ttype in T.Whitespace or token.ttype in T.Comment.Single:
+                parts = LINE_MATCH.split(token.value)[::2]
+                lines[-1] += parts[0]
+                for part in parts[1:]:
+                    lines[-1] = lines[-1].rstrip()
+                    lines.append(part)
+            else:
+                lines[-1] += token.value
+        lines[-1] = lines[-1].rstrip()
+        return '\n'.join(lines)
